@@ -380,6 +380,26 @@ func suiteBudget(o *suiteOut, r *rng, tier string, n int) {
 		}
 		o.count("start-check histories")
 	}
+	// histories under a budget: every call is made whatever the earlier ones returned; the exported counter never
+	// passes N+1, the stacks are not touched once the budget is used up, and the error stays the budget error
+	for hi, h := range [][]string{
+		{"1 2 3 4 5", "6", "7 8"}, {"1 2", "3 4", "", "5"}, {"1 2 3", "4", "5"}, {"{ 1 } loop", "2", "{ 3 } loop"}, {"1 (a) add", "2 3", "4 5 6"},
+		{"/f { f } def f", "1", "f"}, {"1 2 3 4 5 6 7 8 9 10", "", "", "1"},
+	} {
+		for _, budget := range []int{1, 2, 3, 4, 5, 7, 50} {
+			counts := runsAllLine(o, budget, false, h)
+			line := fmt.Sprintf("hist budget %d %d", hi, budget)
+			for ci, c := range counts {
+				if c > budget+1 {
+					o.fail("C11", "the operation counter never passes N+1, however many calls follow (call "+fmt.Sprint(ci)+" of a history)", fmt.Sprintf("%s %q", line, h), fmt.Sprint("<= ", budget+1), fmt.Sprint(c))
+				}
+				if ci > 0 && c < counts[ci-1] {
+					o.fail("C11", "the operation counter does not go down", fmt.Sprintf("%s %q", line, h), fmt.Sprint(">= ", counts[ci-1]), fmt.Sprint(c))
+				}
+			}
+			o.count("budget histories")
+		}
+	}
 	o.notes = append(o.notes, "every budget N in 1..ops(P)+2 for short programs (sampled cut points for long ones), runaway recursion shapes under six budgets, start-check prefixes; direct oracles: state under budget N >= ops equals the unbudgeted state, limit error and NumOps <= N+1 otherwise, stack and dictionary stack caps")
 	os.Remove(p.cur)
 }
